@@ -527,18 +527,27 @@ class DataHandler:
         self.calls = 0
         self.version_calls = 0
         s = float(salt)
+        k = int(salt)
+        # the data sets of different salts differ in numbers *and* in structure: a type only this data set has, and
+        # buff 20 with other modifiers (a rebuild must drop what only the old data had)
+        buff_mods = [{'dogmaAttributeID': 100}, {'dogmaAttributeID': 101}][:1 + k % 2]
         self.t = dict(
-            evetypes=[{'typeID': 1, 'groupID': 5}, {'typeID': 2, 'groupID': 6}],
+            evetypes=[{'typeID': 1, 'groupID': 5}, {'typeID': 2, 'groupID': 6}, {'typeID': 10 + k, 'groupID': 5}],
             evegroups=[{'groupID': 5, 'categoryID': 6}, {'groupID': 6, 'categoryID': 7}],
             dgmattribs=[{'attributeID': 100, 'defaultValue': 0.0, 'highIsGood': True, 'stackable': True},
-                        {'attributeID': 101, 'stackable': False}],
+                        {'attributeID': 101, 'stackable': False},
+                        {'attributeID': int(AttrId.warfare_buff_1_id), 'stackable': True}],
             dgmtypeattribs=[{'typeID': 1, 'attributeID': 100, 'value': 50.0 + s},
-                            {'typeID': 2, 'attributeID': 101, 'value': 20.0 + s}],
+                            {'typeID': 2, 'attributeID': 101, 'value': 20.0 + s},
+                            {'typeID': 2, 'attributeID': int(AttrId.warfare_buff_1_id), 'value': 20.0},
+                            {'typeID': 10 + k, 'attributeID': 100, 'value': 1.0}],
             dgmeffects=[{'effectID': 7, 'effectCategory': 0, 'modifierInfo': [
                 {'domain': 'shipID', 'func': 'ItemModifier', 'modifiedAttributeID': 100, 'modifyingAttributeID': 101,
                  'operation': 6}]}],
             dgmtypeeffects=[{'typeID': 2, 'effectID': 7, 'isDefault': True}],
-            skillreqs=[{'typeID': 2, 'skillTypeID': 1, 'level': 3}], typefighterabils=[], dbuffcollections=[])
+            skillreqs=[{'typeID': 2, 'skillTypeID': 1, 'level': 3}], typefighterabils=[],
+            dbuffcollections=[{'buffID': 20, 'aggregateMode': 'Maximum', 'operationName': 'PostPercent',
+                               ['itemModifiers', 'locationModifiers'][k % 2]: buff_mods}])
 
     def __getattr__(self, n):
         if n.startswith('get_') and n[4:] in self.t:
@@ -554,14 +563,15 @@ class DataHandler:
 
 
 def served(handler):
-    """What a source backed by this handler serves (semantic fields through the public getters)."""
+    """What a source backed by this handler serves (semantic fields through the public getters, over every id any
+    `DataHandler` data set uses)."""
     out = {}
-    for tid in (1, 2):
+    for tid in [1, 2] + list(range(10, 18)):
         try:
             out['type%d' % tid] = norm(c_type(handler.get_type(tid)))
         except Exception as e:
             out['type%d' % tid] = type(e).__name__
-    for aid in (100, 101):
+    for aid in (100, 101, int(AttrId.warfare_buff_1_id)):
         try:
             out['attr%d' % aid] = norm(c_flat(handler.get_attr(aid), ATTR_FIELDS))
         except Exception as e:
@@ -570,6 +580,11 @@ def served(handler):
         out['effect7'] = norm(c_effect(handler.get_effect(7)))
     except Exception as e:
         out['effect7'] = type(e).__name__
+    for bid in (20, 21):
+        try:
+            out['buff%d' % bid] = norm(sort_c([c_flat(b, BUFF_FIELDS) for b in handler.get_buff_templates(bid)]))
+        except Exception as e:
+            out['buff%d' % bid] = type(e).__name__
     return out
 
 
